@@ -62,6 +62,34 @@ CHECKS = {
     tech='TLA+ reference semantics + Report module enumerated by TLC; behaviours replayed into the implementation'),
 }
 
+PK = 'packrat-trace'
+CHECKS.update({
+ 'C07': dict(engine=PK, cat='model_checking', ref='DESIGN.md §7 C07',
+    text='Packrat.tla models the _run driver (explicit stack, per-call memo); TLC model-checks AtMostOnce, NothingLost, '
+         'MemoOwn, MemoBound over every abstract program of 4 rules and every interleaving of 2 calls; every behaviour of '
+         'the single-call model is replayed into the real driver (the harness builds the grammar realising the program '
+         'and the hook-recorded event sequence must equal the model\'s); driver traces (hook H1) and hook-free probe '
+         'traces of sharing-heavy and random grammars are validated by TLC against Trace_Packrat',
+    note='trusted: hook H1 placement (after each state change) or, without it, inline-Python probes; bound: 4 rules x 3 '
+         'requests exhaustively; traces of inputs up to a few hundred characters',
+    tech='TLA+ state machine of the driver; model behaviours replayed + recorded traces validated by TLC (trace spec)'),
+ 'C17': dict(engine=PEG, cat='model_checking', ref='DESIGN.md §7 C17',
+    text='TLC enumerates inner expression x transparent wrapper x every depth 1..45 (thorough 130) x {unnamed, named}, '
+         'model-checks LawWrapTransparent, computes the expected value on the really nested expression and every '
+         'behaviour is replayed; inputs nested 10^4-10^5 deep are executed through a rule, a template, a class and a '
+         'sequence and their driver traces validated by TLC (constant host stack depth)',
+    note='trusted: PegSem; the 10^4-10^5 deep expectations extrapolate the law model-checked to small depth',
+    tech='TLA+ reference semantics enumerated by TLC over every nesting depth; behaviours replayed; driver traces validated'),
+ 'C18': dict(engine=PK, cat='model_checking', ref='DESIGN.md §7 C18',
+    text='MC_Packrat model-checks Isolation and OutcomeIndependent over all interleavings (overlap, nesting, abort) of 2 '
+         'calls; seeded histories on one real module (sequential mixes of succeeding, failing and user-code-raising calls, '
+         '8 threads with 1 microsecond switch interval, nested parses from inline Python, interleaved Grammar() incl. '
+         'extending / name-reusing ones) are compared call by call with the isolated outcome from PegSem, and the '
+         'interleaved driver traces are validated by TLC against Trace_Packrat',
+    note='trusted: PegSem via Oracle.tla for the isolated outcomes; OS-level preemption points are sampled, not enumerated',
+    tech='TLA+ multi-call driver model (interleavings exhaustive) + trace validation of real threaded executions'),
+})
+
 PENDING = {}
 
 
@@ -82,7 +110,7 @@ def main():
                       'module source is generated); checks set it themselves',
             'baseline_off_cmd': 'cd /repo && env -u SOURCER_VERIF /venv/bin/python -m pytest -ra -q -p no:cacheprovider '
                                 '--timeout=900 --continue-on-collection-errors',
-            'source_commits': extra.get('hook_commits', []),
+            'source_commits': ['e145124', '35c4033'],
             'add_only': True,
         },
         'engines': [
@@ -91,6 +119,11 @@ def main():
              'kind_free_text': 'TLC enumerates bounded grammar families and evaluates the reference semantics '
                                'spec/PegSem.tla on every input; every behaviour is replayed into the real generator '
                                'and parser and compared; random deeper cases go through spec/Oracle.tla'},
+            {'name': PK, 'path': 'harness/tracecheck.py',
+             'serves_properties': sorted(k for k, v in checks_tbl.items() if v['engine'] == PK),
+             'kind_free_text': 'spec/Packrat.tla (the _run driver as a state machine) model-checked by TLC; its behaviours '
+                               'are replayed into the real driver and traces recorded through the SOURCER_VERIF hook / '
+                               'inline-Python probes are validated by TLC against spec/Trace_Packrat.tla'},
         ] + extra.get('engines', []),
         'checks': [],
         'not_applicable': [],
